@@ -392,8 +392,23 @@ def ordering(ctx, P, A):
                 v.blocks[insert[0].bid if insert[0].bid is not None else ins['elems'][insert[0].eid]['b']]['id'] not in body
             okins = rel == '<=' and okpos and it is not None
             detail = 'scan stops at the first buffered event with timestamp %s the new one; insertion after it: %s' % (rel, okpos)
-    ctx.check(okins, 'R3', 'insert_into_buffer: scan from the back, stop at the first event not later (<=), insert right after it (sorted and stable: equal dates keep their order)', where(ins), detail,
-              key='R3|insert_into_buffer|stable sorted insertion')
+    if not heads:
+        # no scan loop: a binary search over the buffer.  upper_bound (first event strictly later) keeps equal dates in generation order, lower_bound
+        # (first event not earlier) puts the new event *before* the buffered events of the same date: a pop could then precede its push
+        evs_i = list(all_events(A, ins))
+        bs = [e for e in evs_i if e.kind == 'call' and e.q.split('<')[0] in ('std::upper_bound', 'std::lower_bound') and 'buffer' in repr(e.args[:2])]
+        insert = [e for e in evs_i if e.kind == 'call' and e.q.endswith('::insert') and 'buffer' in repr(e.obj)]
+        if len(bs) == 1 and len(insert) == 1:
+            posv = [e.lhs for e in evs_i if e.kind == 'assign' and e.rhs == bs[0].nf]
+            at_pos = bool(posv) and insert[0].args[0] == posv[0] and insert[0].args[1] == ('this',)
+            okins = bs[0].q.split('<')[0] == 'std::upper_bound' and at_pos
+            detail = 'binary search with %s, insertion at the position found: %s%s' % (bs[0].q.split('<')[0], at_pos, '' if okins else ' - the new event goes before the buffered events of the same date')
+            ctx.check(okins, 'R3', 'insert_into_buffer: sorted and stable insertion (equal dates keep their generation order)', where(ins, bs[0].line), detail, key='R3|insert_into_buffer|stable sorted insertion')
+        else:
+            ctx.unrecognised('R3', 'insert_into_buffer: neither the backward scan nor a binary search over the buffer')
+    else:
+        ctx.check(okins, 'R3', 'insert_into_buffer: scan from the back, stop at the first event not later (<=), insert right after it (sorted and stable: equal dates keep their order)', where(ins), detail,
+                  key='R3|insert_into_buffer|stable sorted insertion')
     # dumping in buffer order
     for q in (NS + 'dump_buffer', NS + 'dump_buffer_before'):
         f = P.fn(q)
